@@ -54,11 +54,12 @@ def run_one(m, tier='quick', with_tests=False, scale=None):
         shutil.rmtree(base, ignore_errors=True)
 
 def main(argv):
-    tier = 'quick'; with_tests = False; names = []; benign = False
+    tier = 'quick'; with_tests = False; names = []; benign = False; append = False
     for a in argv:
         if a == '--thorough': tier = 'thorough'
         elif a == '--tests': with_tests = True
         elif a == '--benign': benign = True
+        elif a == '--append': append = True      # add the rows of this (filtered) run to the existing RESULTS.md
         else: names.append(a)
     ms = [m for m in mutant_list(benign) if not names or any(n in m['name'] for n in names)]
     missed = 0; table = []; table_all = []
@@ -96,6 +97,21 @@ def main(argv):
                 for prop, x in r['results'].items():
                     f.write('| %s | %s | %s | %s | %s | %s | %s |\n' % (m['name'], desc.replace('|', '/'), prop, 'DETECTED' if x['detected'] else 'missed (exit %d)' % x['exit'], '; '.join(x['classes'])[:200].replace('|', '/'), x['wall_s'], r.get('tests', 'not run')))
             f.write('\n%d changes, %d not detected.\n' % (len(ms), missed))
+    if names and append and not benign:
+        path = os.path.join(VERIF, 'mutants', 'RESULTS.md')
+        lines = open(path).read().rstrip('\n').split('\n')
+        m_tot = re.match(r'(\d+) changes, (\d+) not detected\.', lines[-1]) if lines else None
+        body = lines[:-1] if m_tot else lines
+        while body and body[-1] == '': body.pop()
+        for m, r in zip(ms, table_all):
+            desc = ''
+            try: desc = [l[2:].strip() for l in open(m['patch']) if l.startswith('# ') and not l.startswith('# properties')][0]
+            except Exception: pass
+            if 'results' not in r: body.append('| %s | %s | - | %s | | | |' % (m['name'], desc, r.get('status'))); continue
+            for prop, x in r['results'].items():
+                body.append('| %s | %s | %s | %s | %s | %s | %s |' % (m['name'], desc.replace('|', '/'), prop, 'DETECTED' if x['detected'] else 'missed (exit %d)' % x['exit'], '; '.join(x['classes'])[:200].replace('|', '/'), x['wall_s'], r.get('tests', 'not run')))
+        tot = (int(m_tot.group(1)) if m_tot else 0) + len(ms); mis = (int(m_tot.group(2)) if m_tot else 0) + missed
+        open(path, 'w').write('\n'.join(body) + '\n\n%d changes, %d not detected.\n' % (tot, mis))
     out = os.environ.get('VERIF_MUTANT_REPORT')
     if out: json.dump(table, open(out, 'w'), indent=1)
     print('mutants: %d run, %d not detected' % (len(ms), missed))
